@@ -70,6 +70,27 @@ func frun(args []string) error {
 			c.ChunkSize = []int64{1, 60, 150, 1 << 20}[g.R.Intn(4)]
 			wls = append(wls, wl.Workload{ID: fmt.Sprintf("sink%d-%d", *seed, i), Cfg: c, Calls: g.Calls(*size, c.ChunkSize)})
 		}
+		// structured workloads: several channels interleaved inside every chunk, so that each chunk is followed by
+		// several message index records (and the summary by several records per group)
+		for i, cs := range []int64{150, 400, 1 << 20} {
+			for j, comp := range []string{"", "zstd"} {
+				c := wl.Cfg{Chunked: true, ChunkSize: cs, Compression: comp, CRC: (i+j)%2 == 0}
+				calls := []wl.Call{{Op: "header", Profile: []byte("p")}}
+				for ch := 0; ch < 3; ch++ {
+					calls = append(calls, wl.Call{Op: "schema", ID: uint16(ch + 1), Name: []byte{byte('a' + ch)}, Enc: []byte("e"), Data: []byte("d")})
+					calls = append(calls, wl.Call{Op: "channel", ID: uint16(ch), Schema: uint16(ch + 1), Topic: []byte{'/', byte('a' + ch)}, Menc: []byte("m")})
+				}
+				for m := 0; m < 10; m++ {
+					calls = append(calls, wl.Call{Op: "message", Ch: uint16(m % 3), Seq: uint32(m), Log: uint64(10 + m + int(*seed)), Pub: uint64(m), Data: g.Payload(40)})
+					if m == 4 {
+						calls = append(calls, wl.Call{Op: "attachment", Log: 3, Name: []byte("att"), Media: []byte("x"), Data: []byte("attachment-data")})
+						calls = append(calls, wl.Call{Op: "metadata", Name: []byte("md"), MD: []wl.KV{{K: []byte("k"), V: []byte("v")}}})
+					}
+				}
+				calls = append(calls, wl.Call{Op: "close"})
+				wls = append(wls, wl.Workload{ID: fmt.Sprintf("multi%d-%d-%d", *seed, i, j), Cfg: c, Calls: calls})
+			}
+		}
 	}
 	for _, w := range wls {
 		if o.wls != nil {
